@@ -7,6 +7,11 @@ QoS ≤ 2, permitted properties, non-empty entry lists, …) together with the c
 the cached lengths.  `wf` (all checks pass) is the hypothesis of the C02 round-trip theorems
 and the `buildable` monitor of C04: an *accepted* packet that fails a check could not have
 come out of a builder.
+
+That the builders do establish `wf` is no longer only observed on the runs: `Codec/Build.lean`
+models `build()` of all 29 kinds (compared with the real builders on every `B` line), and
+`Props/C02Build.lean` proves `build_ok_wf : a.build pw = .ok p → p.wf pw` (under `Args.typed`,
+`Args.fits32`) and `build_fields`.
 -/
 namespace MqttVerif.Codec
 
